@@ -14,7 +14,11 @@ TRUNCATE = "heapless::vec::Vec::<T, N>::truncate"
 CAPACITY = "heapless::vec::Vec::<T, N>::capacity"
 SPLIT = "core::slice::<impl [T]>::split_first_mut"
 SPLIT_AT = "core::slice::<impl [T]>::split_at_mut"
-CBOR_SER = ("cbor_smol::cbor_serialize", "cbor_smol::ser::cbor_serialize")
+CBOR_SER_SLICE = ("cbor_smol::cbor_serialize", "cbor_smol::ser::cbor_serialize")
+# the writer form: cbor_serialize_to(value, &mut <&mut [u8]>) writes at the front of the slice and returns the number of bytes
+# written (trusted contract of cbor-smol's Writer impl for &mut [u8]: the count is at most the slice's length)
+CBOR_SER_COUNT = ("cbor_smol::cbor_serialize_to", "cbor_smol::ser::cbor_serialize_to")
+CBOR_SER = CBOR_SER_SLICE + CBOR_SER_COUNT
 OK = "core::result::Result::Ok"
 LEN = "core::slice::<impl [T]>::len"
 READ_ONLY = ("len", "capacity", "is_empty", "is_full", "as_slice", "as_ref", "iter", "first", "last", "get")
@@ -119,6 +123,19 @@ def build(F):
         v.encoders = [e for e in p.effects if e.callee in CBOR_SER]
         v.enc = v.encoders[0] if len(v.encoders) == 1 else None
         v.enc_known = m.sym.lookup(p, v.enc.term) if v.enc is not None else None
+        # the encoded body as a term, and its length
+        v.body = v.body_len = None
+        if v.enc is not None:
+            okv = m.sym.proj(v.enc.term, S.OK, 0)
+            if v.enc.callee in CBOR_SER_COUNT:
+                v.body_len = okv
+                v.body = ("index", v.data_place, ("struct", "core::ops::range::RangeTo", (("end", okv),))) if v.data_place is not None else None
+            else:
+                v.body = okv
+                v.body_len = ("call", LEN, (okv,))
+        # reads of the encoded prefix of the tail (`data[..written]`) are part of the writer form
+        v.body_reads = [e for e in p.effects if e.kind == "index" and len(e.args) == 2 and v.data_place is not None and e.args[0] == v.data_place
+                        and e.args[1][0] == "struct" and e.args[1][1].endswith("::RangeTo") and dict(e.args[1][2]).get("end") in (v.body_len, ("lit", 0))]
         v.assigns = [e for e in p.effects if e.kind == "assign"]
         v.status_writes = [e for e in v.assigns if e.args[0] == v.status_place]
         v.buf_ops = [e for e in p.effects if e.kind == "call" and e.args and e.args[0] == BUF]
@@ -142,7 +159,7 @@ def classify(m, v):
         return "err"
     if k != S.OK:
         return None
-    body = m.sym.proj(v.enc.term, S.OK, 0)
+    body = v.body
     a0 = ("array", (("lit", 0xA0),))
     for a in p.atoms:
         if a[0] == "eq" and {a[1], a[2]} == {body, a0}:
